@@ -221,8 +221,15 @@ Section PrfFacts.
     destruct (Nat.ltb_spec n 10); [discriminate|].
     unfold hkdf.
     rewrite (hkdf_expand_stream (Hash a) (block_size a) (digest_size a) (Hash_len a) (digest_pos a)) by lia.
-    intros E. injection E as <-. exists a. split; [reflexivity|]. split; [lia|]. split; [|reflexivity].
-    rewrite firstn_length, (hkdf_blocks_length (Hash a) (block_size a) (digest_size a) (Hash_len a)). lia.
+    remember (hkdf_blocks (Hash a) (block_size a)
+                (hkdf_extract (Hash a) (block_size a)
+                   (if Nat.eqb (length salt) 0 then zeros (digest_size a) else salt) key)
+                info [] 1 255) as S eqn:ES.
+    assert (HS : length S = (255 * digest_size a)%nat)
+      by (rewrite ES; apply (hkdf_blocks_length (Hash a) (block_size a) (digest_size a) (Hash_len a))).
+    intros E. injection E as <-. exists a. split; [reflexivity|]. split; [lia|]. split.
+    - rewrite firstn_length, HS. lia.
+    - rewrite ES. reflexivity.
   Qed.
 
   (* the helper agrees with the HKDF-PRF keyed with the same salt, also for the empty salt *)
